@@ -1000,6 +1000,9 @@ func (x Expr) set(data, value any, fun string, one bool) error {
 				if len(tv) <= end {
 					end = len(tv) - 1
 				}
+				if (0 < step && end < start) || (step < 0 && start < end) {
+					continue // an empty range: the rounding below must not resurrect the start
+				}
 				end = start + ((end - start) / step * step)
 				if 0 < step {
 					for i := end; start <= i; i -= step {
@@ -1054,6 +1057,9 @@ func (x Expr) set(data, value any, fun string, one bool) error {
 				if size <= end {
 					end = size - 1
 				}
+				if (0 < step && end < start) || (step < 0 && start < end) {
+					continue // an empty range: the rounding below must not resurrect the start
+				}
 				end = start + ((end - start) / step * step)
 				if 0 < step {
 					for i := end; start <= i; i -= step {
@@ -1106,6 +1112,9 @@ func (x Expr) set(data, value any, fun string, one bool) error {
 				}
 				if len(tv) <= end {
 					end = len(tv) - 1
+				}
+				if (0 < step && end < start) || (step < 0 && start < end) {
+					continue // an empty range: the rounding below must not resurrect the start
 				}
 				end = start + ((end - start) / step * step)
 				if 0 < step {
